@@ -157,19 +157,21 @@ def params_curve(ctx, n, dim, centripetal, sym, table):
     ctx.check_raises('non_sequence_rejected', TypeError, fit.compute_params_curve, dict(enumerate(_copy(Q))), centripetal)
 
 
-def _grid(ctx, su, sv, sym, table):
-    """data grid Q[v + sv*u], dim 3.
-    'plane'  : x_u, y_v unevenly spaced, z = 4/3 x + 3/4 y  ->  every row / column chord is rational
-    'net'    : x_u, y_v unevenly spaced, z a non-planar integer function (algebraic chord lengths)"""
-    xs = [F(0), F(3), F(9, 2), F(15, 2), F(12)][:su]
-    ys = [F(1), F(5), F(7), F(13), F(16)][:sv]
+def _grid(ctx, su, sv, sym, bump=()):
+    """data grid Q[v + sv*u], dim 3: x_u, y_v unevenly spaced, z = 4/3 x + 3/4 y, so every row / column chord of the
+    base grid and its square root are rational; the points listed in `bump` are lifted off the plane by a constant (their chords become
+    algebraic constants), the points listed in `sym` get a symbolic z"""
+    xs, ys = [F(0)], [F(1)]
+    for k in (2, 1, 3, F(3, 2), 2, F(1, 2)):        # chord along u = 5/3 dx = k*k, along v = 5/4 dy = k*k
+        xs.append(xs[-1] + F(3, 5) * k * k)
+        ys.append(ys[-1] + F(4, 5) * ((k + 1) % 3 + F(1, 2)) ** 2)
+    xs, ys = xs[:su], ys[:sv]
     pts = []
     for u in range(su):
         for v in range(sv):
-            if table == 'plane':
-                z = F(4, 3) * xs[u] + F(3, 4) * ys[v]
-            else:
-                z = F((u * u + 2 * v * v + u * v) % 5, 1) + F(u - v, 2)
+            z = F(4, 3) * xs[u] + F(3, 4) * ys[v]
+            if [u, v] in [list(b) for b in bump]:
+                z = z + 1 + F(u + 2 * v, 3)
             pts.append([ctx.lit(xs[u]), ctx.lit(ys[v]), ctx.lit(z)])
     for (u, v) in sym:
         pts[v + sv * u][2] = ctx.num('Q%d_%d' % (u, v))
@@ -186,11 +188,11 @@ def _ps_shapes(tier):
 
 @scenario('C11', fns=['fitting.compute_params_surface', 'fitting.compute_params_curve'],
           quick=lambda: _ps_shapes('quick'))
-def params_surface(ctx, su, sv, centripetal, sym, table):
+def params_surface(ctx, su, sv, centripetal, sym, bump):
     """ensures: uk[u] = mean over the sv rows of the row's curve parameter, vl[v] = mean over the su columns
                 (The NURBS Book pp.366-367); both start at 0, end at 1 and increase strictly"""
     fit = ctx.geomdl('fitting')
-    Q = _grid(ctx, su, sv, sym, table)
+    Q = _grid(ctx, su, sv, sym, bump)
     uk, vl = fit.compute_params_surface(_copy(Q), su, sv, centripetal)
     _check_params(ctx, 'uk', uk, su)
     _check_params(ctx, 'vl', vl, sv)
@@ -323,12 +325,12 @@ def _is_shapes(tier):
 @scenario('C11', fns=['fitting.interpolate_surface', 'fitting.compute_params_surface', 'fitting.compute_knot_vector',
                       'fitting._build_coeff_matrix', 'linalg.lu_solve', 'BSpline.Surface.evaluate_single'],
           quick=lambda: _is_shapes('quick'), thorough=lambda: _is_shapes('thorough'))
-def interp_surface(ctx, su, sv, pu, pv, centripetal, sym, table):
+def interp_surface(ctx, su, sv, pu, pv, centripetal, sym, bump):
     """requires: su x sv data grid Q[v + sv*u] (rows and columns of distinct consecutive points)
        ensures : degrees (pu, pv), su x sv control points, knot vectors of Eq 9.8 on uk / vl,
                  S(uk[i], vl[j]) = Q[j + sv*i] for every i, j"""
     fit = ctx.geomdl('fitting')
-    Q = _grid(ctx, su, sv, sym, table)
+    Q = _grid(ctx, su, sv, sym, bump)
     srf = fit.interpolate_surface(_copy(Q), su, sv, pu, pv, centripetal=centripetal)
     uk, vl = fit.compute_params_surface(_copy(Q), su, sv, centripetal)
     ctx.check_true('type', isinstance(srf, ctx.geomdl('BSpline').Surface) and not srf.rational)
@@ -411,12 +413,12 @@ def _as_shapes(tier):
                       'helpers.basis_function_one', 'linalg.lu_decomposition', 'linalg.forward_substitution',
                       'linalg.backward_substitution', 'BSpline.Surface.evaluate_single'],
           quick=lambda: _as_shapes('quick'), thorough=lambda: _as_shapes('thorough'))
-def approx_surface(ctx, su, sv, pu, pv, cu, cv, centripetal, sym, table):
+def approx_surface(ctx, su, sv, pu, pv, cu, cv, centripetal, sym, bump):
     """requires: su x sv data grid, p + 2 <= control points <= data points - 1 per direction
        ensures : degrees, cu x cv control points, knot vectors of Eqs 9.68-9.69, the four corner control points are
                  the corner data points and S at the domain corners equals them"""
     fit = ctx.geomdl('fitting')
-    Q = _grid(ctx, su, sv, sym, table)
+    Q = _grid(ctx, su, sv, sym, bump)
     srf = fit.approximate_surface(_copy(Q), su, sv, pu, pv, centripetal=centripetal, ctrlpts_size_u=cu, ctrlpts_size_v=cv)
     uk, vl = fit.compute_params_surface(_copy(Q), su, sv, centripetal)
     ctx.check_true('degree', srf.degree_u == pu and srf.degree_v == pv)
